@@ -169,8 +169,8 @@ func validateStreams(env *Environment, errorSink *validation.ErrorSink) *Environ
 			}
 
 			self.VisitChildren(node, node)
-		case *TypeCase:
-			// an element type or union case is not a top-level protocol sequence element
+		case *TypeCase, *SimpleType:
+			// an element type, union case or type argument is not a top-level protocol sequence element
 			self.VisitChildren(node, node)
 		default:
 			self.VisitChildren(node, context)
